@@ -122,7 +122,7 @@ def c01(tier):
     pl.run(cases, sem=True, pair=False, maxin=16 if tier == "quick" else 48, small_fams=SMALL_FAMS)
     nbad = judge(pl, verdict, pid, finding_signatures(pid), bodies, diffmap=finding_diffvars(pid))
     st = pl.stats
-    if st["programs"] - st["rejected"] - st["crashed"] - st["linkerr"] < 10 or st["src_ok"] < 100:
+    if (st["programs"] - st["rejected"] - st["crashed"] - st["linkerr"] < 10 or st["src_ok"] < 100) and not verdict.violations:      # (a run that found violations reports them)
         raise common.ToolError("vacuous run: %s" % json.dumps(st))
     # ---- Layer 2: FlagProv.tla validates the generator's belief about the flags at every place where it relied on it (hook H3) while
     # compiling the corpus; an unjustified belief is a candidate: the program is executed again on many more inputs before anything is reported
@@ -182,7 +182,7 @@ def c02(tier):
     pl.run(cases, sem=False, pair=True, maxin=16 if tier == "quick" else 48, small_fams=SMALL_FAMS, defined_only=True)
     nbad = judge(pl, verdict, pid, finding_signatures(pid), bodies)
     st = pl.stats
-    if st["programs"] - st["rejected"] - st["crashed"] - st["linkerr"] < 10:
+    if (st["programs"] - st["rejected"] - st["crashed"] - st["linkerr"] < 10) and not verdict.violations:      # (a run that found violations reports them)
         raise common.ToolError("vacuous run: %s" % json.dumps(st))
     # ---- Layer 2: Peephole.tla (optimize() as coded): its belief tracking is model-checked (ValueSound, BeliefSound) on every
     # line sequence within the bound, and bound to the real optimize() by replaying the sequences (drift is reported, it is not a verdict)
